@@ -59,7 +59,16 @@ def run(ctx):
         x = ret.args[1 + fidx(ctx, SS, "x")]
         y = ret.args[1 + fidx(ctx, SS, "y")]
         ctx.add("C06.R2", root + "#share-x-is-the-point", Q.path_of(x) == "x", "the share's x must be the evaluation point; found %s" % S(x, 3), at)
-        folds = Q.find_all(y, lambda t: t.op == "fold" or Q.is_loop_acc(t))
+        # the value stored per polynomial: the mapped element of a collected iterator, or the one value pushed per
+        # iteration of a loop over all polynomials
+        el, src = y, None
+        if y.op == "collected" and y.args[0].op == "mapped":
+            el, src = y.args[0].args[1], Q.whole_of(y, eng, True)
+        elif Q.is_loop_acc(y):
+            pr = Q.parts_of(y)
+            if len(pr) == 1 and pr[0][0] == "repeat" and len(pr[0][1]) == 1 and pr[0][1][0][0] == "byte":
+                el, src = pr[0][1][0][1], Q.whole_of(y, eng, True)
+        folds = Q.find_all(el, lambda t: t.op == "fold" or Q.is_loop_acc(t))
         okh = False
         det = S(y, 5)
         fv = Q.fold_view(folds[0], eng) if len(folds) == 1 else None
@@ -71,7 +80,7 @@ def run(ctx):
                 Q.contains(b, lambda t: t.op == "elem") and not Q.contains(b, lambda t: t is acc)
                 for a, b in ((body.args[0], body.args[1]), (body.args[1], body.args[0])))
             order = it.op == "iter" and not Q.contains(it, lambda t: t.op == "adapted")
-            per_poly = Q.contains(y, lambda t: t.op == "mapped" and Q.params(Q.leaves(t.args[0])) == {"self.%d" % fidx(ctx, EV, "polys")})
+            per_poly = src is not None and Q.path_of(src) == "self.%d" % fidx(ctx, EV, "polys")
             okh = zero and shape and order and per_poly
             det = "init zero: %s, acc*x + c: %s, stored order: %s, one value per polynomial: %s" % (zero, shape, order, per_poly)
         ctx.add("C06.R2", root + "#horner", okh, "evaluation must be the Horner fold acc*x + c from ZERO over the stored coefficient order: %s" % det, at, sample=det)
@@ -144,12 +153,22 @@ def run(ctx):
     eng, ret, st, fr = ctx.root(root)
     err = Q.variant(ret, 1)
     okl = False
+    iy_ = fidx(ctx, "star_sharks::share_ff::Share", "y")
     for (fk, b) in (err[4] if err else ()):
-        if fk != fr.key:
+        frx = eng.frames.get(fk)
+        if frx is None:
             continue
+        bb = Q.origin_block(b)
+        home = eng.home_of(frx, bb if isinstance(bb, int) else 0)
+        if fk != fr.key and home[0] != fr.key:
+            continue          # (a newly extracted helper of recover is part of recover)
         f = Q.closure(eng, eng.facts_at(fk, b))
-        if any(t.op == "eq" and rel == "eq" and v == 0 and Q.contains(t, lambda z: z.op == "len") and
-               Q.contains(t, lambda z: z.op == "enum") for t, rel, v in f):
+        # the error is returned where the y-length of the share at hand differs from the expected one - however the
+        # expected length is kept (an Option cell, the first stored share's own length, ...)
+        if any(t.op == "eq" and rel == "eq" and v == 0 and
+               Q.contains(t, lambda z: z.op == "len" and (Q.path_of(z.args[0]) or "").endswith(".%d" % iy_)) and
+               (Q.contains(t, lambda z: z.op == "enum") or Q.contains(t, lambda z: z.op == "phi"))
+               for t, rel, v in f):
             okl = True
     ctx.add("C06.R5", root + "#unequal-length-refused", okl, "shares of unequal y-length must be refused with Err", ctx.fn(root).loc)
     e3, ret3, _, _ = ctx.root("star_sharks::share_ff::interpolate")
